@@ -3,6 +3,7 @@ import NdnModel.Fib
       `C04 <fe> <ev>;<ev>;…`        fe ::= v2 | v1 | disp        (`.` = empty history)
       ev ::= a/<name>/<hid or ~>                     attach          → ok | ValueError
            | d/<name>                                detach          → ok | KeyError
+           | u/<name>                                legacy unregister() coroutine → ok (entry removed if there is one)
            | i/<name>/<arrival>/<lifetime or ~>/<tokHex or ~>/<up|down>/<replies>
                                                      incoming Interest
       name ::= `.` (root) or comma-separated component hex;  replies ::= `.` or `+`-joined `<now>:<dataHex>`
@@ -15,6 +16,7 @@ open Ndn Ndn.Fib
 
 inductive Ev where
   | op (o : Op)
+  | unreg (p : Name)
   | interest (n : Name) (arrival : Nat) (lifetime : Option Nat) (tok : Option Bytes) (running : Bool)
       (replies : List (Nat × Bytes))
 
@@ -38,6 +40,9 @@ def parseEv (s : String) : Option Ev :=
   | ["d", n] => do
     let n ← fromHexList n
     pure (.op (.detach n))
+  | ["u", n] => do
+    let n ← fromHexList n
+    pure (.unreg n)
   | ["i", n, t, l, k, r, reps] => do
     let n ← fromHexList n
     let t ← t.toNat?
@@ -65,6 +70,7 @@ def showReplyV1 (running : Bool) (r : Nat × Bytes) : String :=
 
 def showInterest (fe : String) (f : Fib) : Ev → String
   | .op _ => "bad-op"
+  | .unreg _ => "bad-op"
   | .interest n t l k running reps =>
     if fe == "disp" then
       match dispatcherDispatch f n with
@@ -84,6 +90,7 @@ def runShow (fe : String) (f : Fib) : List Ev → List String
   | .op o :: r =>
     let s := step f o
     showRes s.2 :: runShow fe s.1 r
+  | .unreg p :: r => "ok" :: runShow fe (unregisterV1 f p) r
   | e :: r => showInterest fe f e :: runShow fe f r
 
 def handle (args : List String) : String :=
